@@ -546,6 +546,12 @@ def rule_loader_enumeration(ctx, px):
         "SupportGenerator.generate_all reads exactly the resources SupportGenerator.get_templates lists",
     )
     f = px.func(LOADERS_MOD, "DSDLTemplateLoader.get_templates")
+    if f.cls is not None:
+        # an enumeration split into private per-loader parts is judged as the one accumulating body the parts abbreviate
+        import copy as _copy
+        f_ = _copy.copy(f)
+        f_.node = pyfront.gather_from_helpers(f.node, {k: v.node for k, v in f.cls.methods.items()})
+        f = f_
     # whatever loader get_source may read from is enumerated whenever it exists: the enumeration of a loader's templates is guarded by
     # nothing but `<that loader> is not None` (a search policy may decide who wins a name, never who is listed - a template found
     # through the fallback loader is read but would not be named)
